@@ -58,17 +58,19 @@ Definition spec_zigzag (ml : option Z) (t : tree) : list (list id) :=
   zigzag_spec false (spec_groups ml t).
 End Restrict.
 
-(** the admitted set stated pointwise, as the property words it: relative
-    depth below maxlevel and no node on the path from the start node down to
-    and including the node satisfies stop.  [admitted_list] enumerates the
-    admitted labels in pre-order by walking every root path. *)
+(** the admitted set stated pointwise, as the property words it: a node is
+    ADMITTED iff its relative depth is below maxlevel and no node on the path
+    from the start node down to and including itself satisfies stop.
+    [annotate] walks the unrestricted pre-order and flags every node. *)
 Section AdmittedSet.
 Variables (stop : id -> bool).
-Fixpoint admitted_pre (ml : option Z) (d : Z) (ok_above : bool) (t : tree) : list id :=
+Fixpoint annotate (ml : option Z) (d : Z) (ok_above : bool) (t : tree) : list (id * bool) :=
   match t with
   | T n cs =>
       let ok := ok_above && negb (stop n) in
-      (if ok && below d ml then [n] else [])
-        ++ flat_map (admitted_pre ml (d + 1) ok) cs
+      (n, ok && below d ml) :: flat_map (annotate ml (d + 1) ok) cs
   end.
+(** the admitted nodes, in the order of the unrestricted pre-order *)
+Definition admitted_in_order (ml : option Z) (t : tree) : list id :=
+  map fst (filter snd (annotate ml 0 true t)).
 End AdmittedSet.
